@@ -58,6 +58,8 @@ fn main() {
         "mtbdd" => drv_mv::mtbdd(&args),
         #[cfg(feature = "idx")]
         "mtconc" => drv_mv::mtconc(&args),
+        #[cfg(feature = "idx")]
+        "mtoom" => drv_mv::mtoom(&args),
         "pick" => match kind.as_str() {
             "bdd" => drv_pick::pick::<BDDFunction>(&args),
             "bcdd" => drv_pick::pick::<BCDDFunction>(&args),
